@@ -148,6 +148,9 @@ def run(ctx):
     lines += hs
     scripts += t2s
     lines = [adtb.strip_diag(l) for l in lines]
+    for l in lines:
+        l.setdefault('lim0', 0)   # histories the driver did not survive to start
+        l.setdefault('c0', c0)
     ctx.add('impl_steps', sum(len(l['ev']) for l in lines))
     ctx.add('random_histories', len(hs))
     ctx.cov['ops_by_kind'] = {}
